@@ -52,6 +52,8 @@
 (*   TailKeepsSets TRUE: the tail Sequence a Source builds contains the    *)
 (*                SetContext / StoreContext elements of the Source too;    *)
 (*                FALSE: only its data elements (source.py:61)             *)
+(*   SplitContinues TRUE: LenaSplit._set_context goes on with the other    *)
+(*                branches when one raises; FALSE: it is left (split.py)   *)
 (* With (TRUE, TRUE) all properties below hold; with either switch FALSE   *)
 (* TLC finds counterexamples to SeenIsExpected (StaticContext_alias.cfg,   *)
 (* StaticContext_tail.cfg), e.g. Sequence(SetContext a, MakeFilename,      *)
@@ -61,7 +63,7 @@ EXTENDS StaticSem, Json
 
 \* Families: the bounded universes explored by one run.  A family is
 \*   [id, leaves (alphabet), maxtok, roots]; it is chosen in Init and never changes.
-CONSTANTS MaxDepth, Families, StoreByCopy, TailKeepsSets
+CONSTANTS MaxDepth, Families, StoreByCopy, TailKeepsSets, SplitContinues
 
 VARIABLES fam,     \* the family of this behaviour
           els,     \* objects constructed so far (construction order)
@@ -154,7 +156,10 @@ SplitSet(E, p, bs, c, al, s) ==
   ELSE LET b == Head(bs) IN
     IF ~HasSet(E[b].k) THEN SplitSet(E, p, Tail(bs), c, al, s)
     ELSE LET r == SetCtx(E, p, b, c, {}, s) IN
-         IF r.exc # "" THEN [s |-> r.s, exc |-> r.exc]
+         \* a branch whose nested sequence has an unresolved key raises; SplitContinues: the
+         \* error stays stored in that branch (it surfaces in _get_context) and the other
+         \* branches still receive their copy; otherwise the loop is left (split.py:132-136)
+         IF r.exc # "" /\ ~SplitContinues THEN [s |-> r.s, exc |-> r.exc]
          ELSE SplitSet(E, p, Tail(bs), c, al, r.s)
 
 \* the loop of LenaSequence._set_context over the elements ch
@@ -199,7 +204,7 @@ Top == open[Len(open)]
 AddChild(stack, id) == [stack EXCEPT ![Len(stack)].ch = Append(@, id)]
 
 Open(kind) ==
-  /\ phase = "build" /\ ntok < fam.maxtok /\ Len(open) < MaxDepth
+  /\ phase = "build" /\ ntok < fam.maxtok /\ Len(open) < fam.depth
   /\ IF open = <<>> THEN els = <<>> /\ kind \in fam.roots
      ELSE IF Top.k = "split" THEN kind \in {"seq", "src"}
      ELSE kind \in {"seq", "split"}
@@ -307,15 +312,15 @@ PrefixOnly ==
        LET later == {j \in (i + 1)..Len(els) : j \notin Ancestors(els, i)} IN
        Walk(els, pol, later, Root, Empty).acc[i] = full[i]
 
-\* ... nor at the other branches of the Splits that enclose i (unless an earlier branch has an
-\* unresolved key, after which nothing is fixed)
+\* ... nor at the other branches of the Splits that enclose i (also not at an unresolved key in
+\* one of them)
 SiblingIndependent ==
   phase = "built" =>
     LET full == Walk(els, pol, {}, Root, Empty).acc IN
     \A i \in DOMAIN full :
        LET anc == Ancestors(els, i) \cup {i}
            sib == UNION {Range(els[n].ch) \ anc : n \in {a \in anc : els[a].k = "split"}}
-       IN full[i].err \/ Walk(els, pol, sib, Root, Empty).acc[i] = full[i]
+       IN Walk(els, pol, sib, Root, Empty).acc[i] = full[i]
 
 \* UnresolvedSurfaces / root context
 RootExpected ==
@@ -388,10 +393,14 @@ LeavesWide == LeavesFull \cup LeavesFocus3b \cup LeavesFocus4
 (***************************************************************************)
 (* Families (one TLC run explores all families of its configuration).      *)
 (***************************************************************************)
-Fam(id, leaves, maxtok, roots) == [id |-> id, leaves |-> leaves, maxtok |-> maxtok, roots |-> roots]
+Fam(id, leaves, maxtok, roots) == [id |-> id, leaves |-> leaves, maxtok |-> maxtok, roots |-> roots, depth |-> 3]
+FamD(id, leaves, maxtok, roots, depth) == [Fam(id, leaves, maxtok, roots) EXCEPT !.depth = depth]
+\* a branch with an unresolved key next to sibling branches (depth 4: the key sits in a nested sequence)
+LeavesFocus5 == {SetC(KA, "int", "1"), SetF(KB, <<Fld(KDE)>>)}
 FamQuick == {Fam("A4", LeavesQuick, 4, AllRoots), Fam("B5", LeavesB, 5, SeqRoots),
              Fam("F1", LeavesFocus1, 6, SeqRoot), Fam("F2", LeavesFocus2, 5, SeqRoot),
-             Fam("F3", LeavesFocus3b, 4, SeqRoot), Fam("F4", LeavesFocus4, 4, SeqRoots)}
+             Fam("F3", LeavesFocus3b, 4, SeqRoot), Fam("F4", LeavesFocus4, 4, SeqRoots),
+             Fam("F5", LeavesFocus5, 6, SeqRoot)}
 FamCov == {Fam("A3", LeavesQuick, 3, AllRoots)}
 FamT_A == {Fam("A5", LeavesQuick, 5, AllRoots)}
 FamT_B == {Fam("B6", LeavesTiny, 6, SeqRoots)}
@@ -401,8 +410,9 @@ FamT_F == {Fam("F1", LeavesFocus1, 7, SeqRoot), Fam("F2d", LeavesFocus2b, 6, All
            Fam("F2", LeavesFocus2, 5, SeqRoots), Fam("F3", LeavesFocus3b, 5, SeqRoot),
            Fam("F4", LeavesFocus4, 4, AllRoots)}
 FamT_F1 == {f \in FamT_F : f.id \in {"F1", "F2d", "F2"}}
-FamT_F2 == {f \in FamT_F : f.id \in {"F3", "F4"}}
-FamThorough == FamT_A \cup FamT_B \cup FamT_C \cup FamT_F
+FamT_F2 == {f \in FamT_F : f.id \in {"F3", "F4"}} \cup {FamD("F5d", LeavesFocus5, 7, SeqRoot, 4)}
+FamThorough == FamT_A \cup FamT_B \cup FamT_C \cup FamT_F \cup FamT_F2
+FamAbort == {FamD("abort", LeavesFocus5, 7, SeqRoot, 4)}
 FamSim == {Fam("W8", LeavesWide, 8, AllRoots)}
 FamAlias == {Fam("alias", LeavesMin, 4, SeqRoots)}
 FamTail == {Fam("tail", LeavesMin, 5, SrcRoot)}
